@@ -1,4 +1,5 @@
 import GJS.Model.Run
+import GJS.Proofs.Mono
 import GJS.Props.C05
 import GJS.Props.C06
 import GJS.Props.C07
@@ -73,5 +74,24 @@ theorem string_accepts_valid_ascii (minLen maxLen : Int) (pattern s : String) (h
 theorem array_accepts_valid (xs : List GoVal) (mn mx : Int) (h : Spec.itemsCountOK mn mx xs.length = true) :
     checkArray 1 (.slice xs) mn mx = true := by
   rw [C07.depth1_exact]; exact h
+
+/-- **the driver's acceptance is THE acceptance**: what `unmarshal` (the model's `json.Unmarshal`, run with the fuel
+    `runFuel j`) accepts is accepted, with the same decoded value, for every larger fuel — fuel is only ever
+    "enough or not" (`Proofs.decode_ok_mono`, one induction over the whole mutual block, any program) -/
+theorem unmarshal_accept_stable (w : Wire) (env : Env) (root : String) (j : Json) (v : GoVal)
+    (h : unmarshal w env root j = .ok v) :
+    ∀ g, runFuel j ≤ g → decode w env g (.named root) j = .ok v := by
+  intro g hg
+  unfold unmarshal at h
+  split at h
+  · cases h
+  · exact Proofs.decode_ok_mono w env (.named root) j v (runFuel j) g hg h
+
+/-- … and a document that is rejected for every fuel can never have been accepted by the driver -/
+theorem rejected_forever_not_accepted (env : Env) (root : String) (j : Json)
+    (h : ∀ fuel, ¬ Proofs.Accepted (decode .json env fuel (.named root) j)) :
+    ¬ Proofs.Accepted (unmarshal .json env root j) := by
+  intro ⟨v, hv⟩
+  exact h (runFuel j) ⟨v, unmarshal_accept_stable .json env root j v hv (runFuel j) (Nat.le_refl _)⟩
 
 end GJS.Props.C02
